@@ -167,6 +167,12 @@ func (c *Cursor) Next() error {
 }
 
 func (c *Cursor) Column(ctx *sqlite.VirtualTableContext, i int) error {
+	if ctx.NoChange() && !c.common.IsKeyColumn(i) {
+		// Column of a row being UPDATEd that the statement does not assign:
+		// leaving the result unset tells SQLite to pass it on as unchanged,
+		// and the UPDATE then re-stamps only the columns it sets.
+		return nil
+	}
 	v, err := c.common.Column(i)
 	if err != nil {
 		return toSqlite(err)
